@@ -1,4 +1,6 @@
 """Generators of object-model histories (values from the adversarial pools)."""
+import copy
+
 from harness import pools
 
 ENCS = ['utf-8', 'utf-16', 'latin-1', 'utf-32-be', 'cp1252', 'utf-8-sig', 'UTF-16', 'cp037', 'ascii']
@@ -20,7 +22,7 @@ def rand_container_attrs(rng, level, rich=True):
         if rng.random() < 0.3:
             a['preamble_mimetype'] = rng.choice(['text/plain', 'text/markdown'])
     if level == 2 or rng.random() < 0.6:
-        a['meta'] = dict(rng.choice(pools.METAS))
+        a['meta'] = copy.deepcopy(rng.choice(pools.METAS))    # never hand one mutable object to two trees
         if rng.random() < 0.3:
             a['meta_encoding'] = rng.choice(ENCS)
         if rng.random() < 0.2:
@@ -61,3 +63,84 @@ def build_tree(h, rng, via_attrs=True):
                 for k, v in fa.items():
                     h.set(tid, ci, fi, k, v)
     return tid
+
+
+SET_ATTRS = ['encoding', 'meta', 'meta_encoding', 'preamble', 'preamble_encoding', 'preamble_indent',
+             'preamble_line_endings', 'preamble_mimetype', 'diff', 'diff_encoding', 'diff_line_endings', 'diff_type',
+             'meta_format', 'version']
+STAT_DIFFS = [b'--- a\n+++ b\n@@ -1 +1 @@\n-a\n+b\n', b'@@ -1,2 +1,3 @@\n a\n-b\n+c\n+d\n', b'@@ -0,0 +1 @@\n+x\n',
+              b'@@ -1 +1 @@\r\n-a\r\n+b\r\n', b'not a diff\n', b'@@ -1,3 +1 @@\n-a\n']
+
+
+def value_for(attr, v, rng):
+    """A value for a typed attribute; v = 0 picks a canonical valid value, others vary (incl. invalid)."""
+    valid = {
+        'encoding': ['utf-8', 'utf-16', 'latin-1'], 'meta_encoding': ['utf-8', 'utf-16'], 'preamble_encoding': ['utf-16', 'latin-1'],
+        'diff_encoding': ['utf-8', 'latin-1'], 'meta': [{'k': 'v'}, {'path': 'x', 'stats': {'custom': 1}}, {}],
+        'preamble': ['text', 'é\nz\n', 'a\r\nb'], 'preamble_indent': [0, 2, 4], 'preamble_line_endings': ['unix', 'dos'],
+        'preamble_mimetype': ['text/plain', 'text/markdown'], 'diff': STAT_DIFFS, 'diff_line_endings': ['unix', 'dos'],
+        'diff_type': ['text', 'binary'], 'meta_format': ['json'], 'version': ['1.0'],
+    }
+    invalid = [None, 5, 'mac', b'b', [], 1.5, 'text/html', {'a': 1}, '2.0']
+    if v >= 4:
+        return rng.choice(invalid)
+    vals = valid[attr]
+    return vals[v % len(vals)]
+
+
+def run_history(h, beh, rng):
+    """Concretise a Gen_Dom behaviour on History h (indices are reinterpreted against the ACTUAL trees:
+    an operation whose target does not exist, e.g. after a failed parse, is skipped)."""
+    blobs = {}
+    for e in beh:
+        op = e['op']
+        nt = len(h.trees)
+        if op == 'new':
+            h.new(**(rand_container_attrs(rng, 0) if e['v'] else {}))
+            continue
+        t = e['t']
+        if t < 1 or t > nt:
+            continue
+        tree = h.trees[t - 1]
+        ci, fi = e['ci'], e['fi']
+        if ci > len(tree.changes) or (ci and fi > len(tree.changes[ci - 1].files)):
+            continue
+        lvl = 0 if ci == 0 else (1 if fi == 0 else 2)
+        if op == 'addc':
+            h.addc(t, **(rand_container_attrs(rng, 1) if e['v'] else {}))
+        elif op == 'addf':
+            attrs = rand_container_attrs(rng, 2) if e['v'] else {'meta': {'path': 'f'}}
+            if e['v'] % 2 == 0:
+                attrs['diff'] = rng.choice(STAT_DIFFS)
+            h.addf(t, ci, **attrs)
+        elif op == 'set':
+            a = SET_ATTRS[(e['a'] - 1) % len(SET_ATTRS)]
+            h.set(t, ci, fi, a, value_for(a, e['v'], rng))
+        elif op == 'mut':
+            k = rng.choice(['k', 'stats', 'é'])
+            h.mut(t, ci, fi, k, rng.choice([{'custom': 1}, {'insertions': 5}]) if k == 'stats'
+                  else rng.choice([1, 'v', None, {'n': [1]}]))
+        elif op == 'mut2':
+            h.mut2(t, ci, fi, 'stats', *rng.choice([('insertions', 99), ('custom', 'x'), ('lines changed', 7)]))
+        elif op == 'opt':
+            sec = rng.choice(['self', 'meta'] + (['pre'] if lvl < 2 else ['diff']))
+            if e['v']:
+                h.opt(t, ci, fi, sec, rng.choice(['encoding', 'custom']), rng.choice(['utf-16', 'latin-1', 'utf-8']))
+            else:
+                h.opt(t, ci, fi, sec, rng.choice(['encoding', 'custom']), delete=True)
+        elif op == 'ser':
+            x = h.ser(t)
+            if x['status'] == 'ok':
+                blobs[t] = bytes(x['bytes'])
+                h.ser(t, same_as=blobs[t])
+        elif op == 'parse':
+            x = h.ser(t)
+            if x['status'] == 'ok':
+                h.parse(bytes(x['bytes']))
+        elif op == 'cmp':
+            if 1 <= e['u'] <= nt:
+                h.cmp(t, e['u'])
+        elif op == 'repr':
+            h.repr(t)
+        elif op == 'stats':
+            h.stats(t)
